@@ -17,9 +17,10 @@ def run(tier, seed):
         "distinct_nontrivial": r["distinct"],
         "traces": r["lines"],
         "rule": "generated HybridClass universes (Leaf / Mid / Top; every compound field independently a nested hybrid or a Ref to a "
-                "hybrid; renamed fields; declared defaults) on three buffers in two contexts, and histories of 8-24 operations: "
+                "hybrid; renamed fields; declared defaults; the leaf classes also hold a string, a 2-D array of static shape and two 1-D "
+                "arrays of dynamic shape that may be empty) on three buffers in two contexts, and histories of 8-24 operations: "
                 "construction from plain / dressed / None values, attribute get and set (numbers, dressed objects of any buffer, "
-                "None), copy, move, pure-Python attributes; every answer (value, class, buffer, which handles share its location, "
+                "None, texts), copy, move, pure-Python attributes; every answer (value, class, buffer, which handles share its location, "
                 "_movable, Python attributes, exception class) compared with the Lean model; oracle after EVERY operation: for every "
                 "live handle and field the attribute equals the underlying buffer data (numbers, nested values, location of the "
                 "dressed object vs location the buffer records), move leaves no dressed part behind and keeps the value",
